@@ -269,7 +269,10 @@ func gen(r *vlib.R, n int, tier string, emit func(string)) {
 	for i := 0; i < 6; i++ {
 		pat := make([]byte, 2+r.Intn(10))
 		for j := range pat {
-			pat[j] = vlib.Pick(r, []byte{'w', 'w', 'n'})
+			pat[j] = vlib.Pick(r, []byte{'w', 'w', 'n', 'n', 'e', 'e'})
+		}
+		if i == 0 {
+			pat = []byte("wenwn")
 		}
 		emit("pool subq " + string(pat))
 		n--
@@ -340,6 +343,25 @@ func gen(r *vlib.R, n int, tier string, emit func(string)) {
 			modes = strings.Join(ms, ",")
 		}
 		emit(fmt.Sprintf("fo run %d %s %d %s %s", 1+r.Intn(65535), vlib.B(r.Chance(5, 6)), vlib.Pick(r, []int{2, 2, 2, 2, 0, 3}), modes, vlib.Pick(r, []string{"udp", "tcp"})))
+		n--
+	}
+	// 2g. forwarder: UDP / dead / failing-DoH upstreams in every order
+	fws := 8
+	if thorough {
+		fws = 40
+	}
+	for i := 0; i < fws; i++ {
+		var ms []string
+		for j, k := 0, 1+r.Intn(3); j < k; j++ {
+			ms = append(ms, vlib.Pick(r, []string{"sf", "ok", "nx", "dead", "dohdead", "dohdead", "dohtls"}))
+		}
+		if i == 0 {
+			ms = []string{"dohdead", "ok"}
+		}
+		if i == 1 {
+			ms = []string{"dohtls", "sf"}
+		}
+		emit(fmt.Sprintf("fw run %d %s %s", 1+r.Intn(65535), strings.Join(ms, ","), vlib.Pick(r, []string{"udp", "tcp"})))
 		n--
 	}
 	// 2c. DoQ: several streams on one connection, handlers released in a scripted order
